@@ -13,6 +13,8 @@ theorem gen_constants : Gen.defaultMaxHandles = 100000 ∧ Gen.evictDivisor = 10
 
 /-- Regenerated structural fact: the eviction loop in Allocate skips the handle it has just assigned. -/
 theorem gen_eviction_skips_new : Gen.evictionSkipsAssigned = true := by decide
+/-- each table operation is one critical section in the code, as `alloc`/`release`/`releaseAll` are one step here -/
+theorem gen_ops_atomic : Gen.handleOpsAtomic = true := by decide
 
 abbrev alloc' := alloc Gen.defaultMaxHandles Gen.evictDivisor
 abbrev run' := run Gen.defaultMaxHandles Gen.evictDivisor
